@@ -260,7 +260,13 @@ pub fn child_main(path: &str) -> i32 {
     0
 }
 
-pub fn replay(_kind: &str, case: &Value) -> Result<(), String> {
+pub fn replay(kind: &str, case: &Value) -> Result<(), String> {
+    if kind == "ambient-default-dir" {
+        return match TimeZoneSettings::DEFAULT_DIRECTORIES.iter().find(|d| !d.starts_with('/')) {
+            Some(d) => Err(format!("default zoneinfo directory {d:?} is relative")),
+            None => Ok(()),
+        };
+    }
     check_program(&serde_json::from_value(case.clone()).map_err(|e| e.to_string())?, &mut Stats::new())
 }
 
@@ -297,6 +303,13 @@ pub fn run(ctx: &Ctx) -> Outcome {
         "the schedule is the operating system's: a race needing a rare interleaving, or a correctly keyed and synchronised cache, is invisible to this check (DESIGN.md §8)".into(),
         "digest = hash of the Debug rendering, which covers every field of the results".into(),
     ];
+    // a relative default zoneinfo directory would make every default-settings resolution depend on the process's working directory
+    for d in TimeZoneSettings::DEFAULT_DIRECTORIES {
+        if !d.starts_with('/') {
+            out.failure = Some(Failure::new("ambient-default-dir", format!("default zoneinfo directory {d:?} is relative: TimeZone::from_posix_tz / local() depend on the current working directory (process-global ambient state)"), json!({"directory": d})));
+            return out;
+        }
+    }
     let cases = ctx.tier.pick(250u32, 6_000u32);
     let strat = arb_program();
     let rs = par_shards(4, |shard, st| pt_shard(ctx, "program", shard, cases, &strat, st, check_program));
@@ -307,7 +320,7 @@ pub fn run(ctx: &Ctx) -> Outcome {
     // (4) child process under perturbed ambient state
     let mut dr = Drawer::new(ctx, "child", 0);
     let progs: Vec<Program> = (0..ctx.tier.pick(60, 600)).map(|_| dr.draw(&strat)).collect();
-    let path = std::path::Path::new(VERIF_DIR).join("build/c15-programs.json");
+    let path = crate::run::verif_dir().join("build/c15-programs.json");
     let _ = std::fs::create_dir_all(path.parent().unwrap());
     if std::fs::write(&path, serde_json::to_string(&progs).unwrap()).is_err() {
         out.failure = Some(Failure::new("infra", "cannot write build/c15-programs.json", json!(null)));
